@@ -92,7 +92,8 @@ def run_pipeline(sources: dict, entry=None, **opts) -> Generated:
 
     CodeWriter.register_generator("dataclasses", StandinGenerator)
     workdir = tempfile.mkdtemp(prefix="vpgen_")
-    package = f"vpgen{next(_counter)}_{os.getpid()}"
+    top = f"vpgen{next(_counter)}_{os.getpid()}"
+    package = top + ".models"
     uris = []
     for name, content in sources.items():
         p = os.path.join(workdir, name)
@@ -125,7 +126,7 @@ def run_pipeline(sources: dict, entry=None, **opts) -> Generated:
             sys.path.insert(0, workdir)
         importlib.invalidate_caches()
         try:
-            for d, _, files in os.walk(os.path.join(workdir, *package.split("."))):
+            for d, _, files in os.walk(os.path.join(workdir, top)):
                 for f in sorted(files):
                     if f.endswith(".py"):
                         rel = os.path.relpath(os.path.join(d, f), workdir)[:-3].replace(os.sep, ".")
@@ -134,4 +135,4 @@ def run_pipeline(sources: dict, entry=None, **opts) -> Generated:
                         modules[rel] = importlib.import_module(rel)
         except BaseException as e:  # noqa: BLE001
             error = e
-    return Generated(workdir, package, modules, error, buf.getvalue())
+    return Generated(workdir, top, modules, error, buf.getvalue())
